@@ -137,7 +137,11 @@ def run_real(case):
             if ev.event_type == "probe":
                 cur.append("recv")
                 return None
-            return self.run_job(ev.context["metadata"]["job"])
+            j = ev.context["metadata"]["job"]
+            if not jobs[j]["ops"] and not qres:
+                cur.extend(["enter", "done"])       # a plain handler: no generator, no process
+                return None
+            return self.run_job(j)
 
         def run_job(self, j):
             cur.append("enter")
@@ -304,15 +308,24 @@ def run_real(case):
             me = Event.once(Instant(m["t"] * TICK), "manual", fn, daemon=True, context={"metadata": {"hv_manual": i}})
             mmap[i] = (tag, i)
             evs.append(me)
+        for i, sc in enumerate(case.get("setcaps", [])):
+            # the model resizes the resource itself (an autoscaler): the new configured capacity
+            evs.append(Event.once(Instant(sc["t"] * TICK), "setcap", (lambda v: (lambda e: res.set_capacity(v)))(sc["v"]),
+                                  daemon=True, context={"metadata": {"hv_setcap": sc["v"]}}))
         return evs
 
     # `early`: the workload's events exist before the Simulation (and with it the fault events)
     early = bool(case.get("early"))
     evs = make_events() if early else None
     H = case["H"]
+    tracing = bool(case.get("tracing"))
+    extra = {}
+    if tracing:
+        from happysimulator.instrumentation.recorder import InMemoryTraceRecorder
+        extra["trace_recorder"] = InMemoryTraceRecorder()
     try:
         sim = Simulation(entities=workers + [sink] + [nets[k] for k in order] + [res], fault_schedule=fs,
-                         end_time=Instant(H * TICK))
+                         end_time=Instant(H * TICK), **extra)
     except (KeyError, ValueError):
         # a fault names an entity / link / network that is not part of the simulation
         return ["E unknown-target"]
@@ -390,6 +403,8 @@ def run_real(case):
             out.append(f"F {t} {fid} {ad} | {settings(ev.time)}")
         elif ev.event_type == "cancel" and "hv_cancel" in md_:
             out.append(f"C {t} {md_['hv_cancel']} | {settings(ev.time)}")
+        elif ev.event_type == "setcap" and "hv_setcap" in md_:
+            out.append(f"V {t} {md_['hv_setcap']} | {settings(ev.time)}")
         elif ev.event_type == "manual" and "hv_manual" in md_:
             (ad, fid), i = mmap[md_["hv_manual"]]
             m = case["manual"][i]
@@ -446,6 +461,18 @@ def run_real(case):
             out.append(f"U {t} {ev.event_type}")
 
     sim.control.on_event(on_event)
+    if tracing:
+        # application-level event tracing (what the visual debugger switches on) must not change what runs
+        from happysimulator.core.event import disable_event_tracing, enable_event_tracing
+        enable_event_tracing()
+        try:
+            return finish_run(sim, case, out, cur, seen, mh, count, settings, H, Instant)
+        finally:
+            disable_event_tracing()
+    return finish_run(sim, case, out, cur, seen, mh, count, settings, H, Instant)
+
+
+def finish_run(sim, case, out, cur, seen, mh, count, settings, H, Instant):
     rr = case.get("rerun")
     if not rr:
         sim.run()
@@ -567,7 +594,9 @@ class C06(core.Property):
             "through every network; settings of every network's links judged) / rerun (a plan of any other family with a "
             "stateless workload - handlers that only sleep and emit -: first run to the end or stopped by a breakpoint before / "
             "inside / after the windows, sim.control.reset(), second run; the second run's transcript is judged and must repeat "
-            "the first) in rotation, plus ghost (a fault naming an "
+            "the first) in rotation; in 30% of all cases application-level event tracing is switched on and a trace recorder "
+            "attached (same Spec); jobs without ops run as plain (non-generator) handlers; plans with capacity windows get "
+            "1-3 Resource.set_capacity calls by the model before the first window / inside / between / after windows, plus ghost (a fault naming an "
             "entity, link or network that is not part of the simulation: construction must be rejected); in 35% of all cases "
             "the workload's events are created before the Simulation is built (early), so that deliveries due exactly at a "
             "window's start / end instant are older than the fault events; non-trivial = some job, probe, delivery, cancel or manual call was processed while a window was open; "
@@ -596,6 +625,9 @@ class C06(core.Property):
         "other event, whichever event object was created first (judged on every transcript: boundaryCheck)",
         "network_name=None resolves to the first Network registered with the Simulation (the harness computes that index; the "
         "Lean case carries the resolved network of every fault); a worker as an endpoint on network k is node worker + 1000*k",
+        "a Resource.set_capacity call by the model sets the configured capacity; the factors of the open ReduceCapacity windows keep "
+        "applying to it and it is what remains when the last window has ended (judged against the live configured capacity)",
+        "event tracing (enable_event_tracing, a TraceRecorder) is an observer: transcripts are judged by the same Spec with it on",
         "rerun family: the model starts the second run from its initial state (reset re-arms the fault schedule, closes the windows "
         "a stopped run left open, clears fault-set crash flags, undoes cancel() calls made by the model during the run and keeps those "
         "made before it); the first/second comparison is made by the harness on the transcript lines (`Y same`)",
@@ -739,7 +771,7 @@ class C06(core.Property):
             e = focus if rng.random() < 0.6 else rng.randrange(n)
             t = max(0, tpick() - rng.choice([0, 0, 8, 16, 24]))
             ops = []
-            for _ in range(rng.choice([1, 2, 3, 4, 6])):
+            for _ in range(rng.choice([0, 1, 2, 3, 4, 6])):
                 r = rng.random()
                 if fam == "cap" and r < 0.55 or r < 0.2:
                     if rng.random() < 0.6:
@@ -788,6 +820,16 @@ class C06(core.Property):
             case["manual"] = manual
         if rng.random() < 0.35:
             case["early"] = True          # the workload's events are created before the Simulation is built
+        if rng.random() < 0.3:
+            case["tracing"] = True        # application-level event tracing on, a trace recorder attached
+        capw = [(f["s"], f["r"]) for f in faults if f["k"] == "cap"]
+        if capw and rng.random() < 0.6:
+            # the model resizes the resource itself: before the first window, inside, between, after
+            pts = sorted({max(1, t + d) for (s_, r_) in capw for t in (s_, r_, (s_ + r_) // 2) for d in (-8, -1, 0, 1, 8)})
+            lo = min(s_ for s_, _ in capw)
+            case["setcaps"] = [{"t": rng.choice([max(1, lo - 8), max(1, lo - 1)] + pts),
+                                "v": rng.choice([cap // 2, cap, 2 * cap, 3 * cap, 12])}
+                               for _ in range(rng.choice([1, 1, 2, 3]))]
         case["H"] = self.horizon(case)
         return case
 
@@ -1122,6 +1164,7 @@ class C06(core.Property):
                 "inflight": self.gen_inflight}.get(base, lambda r: self.gen_base(r, base))(rng)
         case["family"] = "rerun"
         case.pop("manual", None)
+        case.pop("setcaps", None)             # a resize by the model is entity state that reset() keeps
         case["nfut"] = 0
         for job in case["jobs"]:
             job["ops"] = [op if op[0] in ("sleep", "emit") else rng.choice([["sleep", 1], ["sleep", 8], ["emit", 0], ["emit", 8]])
@@ -1160,7 +1203,7 @@ class C06(core.Property):
         ts = [0]
         for f in case["faults"]:
             ts += [f["s"], f["r"] or 0] + [c for c in cancel_points(f) if c != "pre"]
-        for m in case.get("manual", []):
+        for m in case.get("manual", []) + case.get("setcaps", []):
             ts.append(m["t"])
         for j in case["jobs"]:
             ts.append(j["t"])
@@ -1217,6 +1260,11 @@ class C06(core.Property):
                 yield with_(manual=keep)
         if case.get("early"):
             yield with_(early=False)
+        if case.get("tracing"):
+            yield with_(tracing=False)
+        sc = case.get("setcaps", [])
+        for i in range(len(sc)):
+            yield with_(setcaps=sc[:i] + sc[i + 1:])
         if case.get("rerun") and case["rerun"].get("stop") is not None:
             yield with_(rerun={"stop": None})
         if not man and "manual" in case:
@@ -1370,6 +1418,8 @@ THEOREMS = [
     "HappyModel.C06.up_from_restart_time",
     "HappyModel.C06.delivery_at_restart_time_runs",
     "HappyModel.C06.winv_healall",
+    "HappyModel.C06.capacity_tracks_live_configuration",
+    "HappyModel.C06.setcap_sets_base",
     "HappyModel.C06.inv_at",
     "HappyModel.C06.active_of_inside",
     "HappyModel.C06.inside_of_active",
